@@ -160,7 +160,6 @@ def make(targets, timeout=3000):
 def snapshot_vo(prop):
     """Copy every compiled .vo of the Coq tree into build/chk/<prop>/ (called under the build lock:
     31 MB, well under a second) so that coqchk can re-check them without holding the lock."""
-    import shutil
     dst = os.path.join(BUILD, "chk", prop)
     shutil.rmtree(dst, ignore_errors=True)
     for root, _, files in os.walk(COQ):
@@ -373,7 +372,6 @@ def main(argv):
     chk = None
     if snap:
         chk = coqchk(cfg["coq_targets"], snap)
-        import shutil
         shutil.rmtree(snap, ignore_errors=True)
     if chk is not None:
         if True:
